@@ -12,6 +12,7 @@ CONSTANTS
   MaxEdits = 1
   EditOps <- OpsAll
   Weak_ChallengeNotBound = FALSE
+  Weak_ChallengeDHOnly = FALSE
   Weak_AcceptLowOrder = FALSE
   Weak_NonceNotIncremented = FALSE
   Weak_RecvNonceNotIncremented = FALSE
